@@ -552,7 +552,8 @@ structure IdxGroup where
   used : Nat
   deriving Repr, DecidableEq
 
-/-- The allocation-relevant part of `lzma_index`: per Stream the list of groups (rightmost last). -/
+/-- The allocation-relevant part of `lzma_index`: the Streams, the LAST Stream FIRST, and per Stream its Record
+    groups, the RIGHTMOST (most recently allocated) group FIRST. -/
 structure Idx where
   streams : List (List IdxGroup)
   prealloc : Nat
@@ -570,30 +571,31 @@ def Idx.setPrealloc (b : Build) (i : Idx) (records : Nat) : Idx :=
 
 def groupBytes (b : Build) (g : IdxGroup) : Nat := b.szIndexGroup + g.allocated * b.szIndexRecord
 
-def Idx.blocks (i : Idx) : Nat := ((i.streams.map fun s => (s.map (·.used)).sum)).sum
+def streamBytes (b : Build) (s : List IdxGroup) : Nat := b.szIndexStream + (s.map (groupBytes b)).sum
+
+def streamBlocks (s : List IdxGroup) : Nat := (s.map (·.used)).sum
+
+def Idx.blocks (i : Idx) : Nat := (i.streams.map streamBlocks).sum
 
 /-- Bytes currently allocated for the index (base struct, Streams, groups). -/
-def Idx.liveBytes (b : Build) (i : Idx) : Nat :=
-  b.szIndex + ((i.streams.map fun s => b.szIndexStream + (s.map (groupBytes b)).sum)).sum
+def Idx.liveBytes (b : Build) (i : Idx) : Nat := b.szIndex + (i.streams.map (streamBytes b)).sum
 
-/-- Append one Record to the last group of a Stream, or report that a new group is needed. -/
-def appendToStream (s : List IdxGroup) (prealloc : Nat) : List IdxGroup × Option Nat :=
-  match s.getLast? with
-  | some g =>
-    if g.used < g.allocated then (s.dropLast ++ [{ g with used := g.used + 1 }], none)
-    else (s ++ [{ allocated := prealloc, used := 1 }], some prealloc)
-  | none => (s ++ [{ allocated := prealloc, used := 1 }], some prealloc)
+/-- Add one Record to a Stream: into the rightmost group if it has room, else into a new group of `prealloc` Records
+    (the number of Records requested is returned). -/
+def appendToStream : List IdxGroup → Nat → List IdxGroup × Option Nat
+  | g :: rest, p =>
+    if g.used < g.allocated then ({ g with used := g.used + 1 } :: rest, none)
+    else ({ allocated := p, used := 1 } :: g :: rest, some p)
+  | [], p => ([{ allocated := p, used := 1 }], some p)
 
 /-- `lzma_index_append` (size checks aside): the new state and the size requested from the allocator, if any. -/
 def Idx.append (b : Build) (i : Idx) : Idx × Option Nat :=
-  match i.streams.getLast? with
-  | none => (i, none)
-  | some s =>
-    let (s', a) := appendToStream s i.prealloc
-    match a with
-    | none => ({ i with streams := i.streams.dropLast ++ [s'] }, none)
-    | some p => ({ streams := i.streams.dropLast ++ [s'], prealloc := INDEX_GROUP_SIZE },
-                 some (b.szIndexGroup + p * b.szIndexRecord))
+  match i.streams with
+  | [] => (i, none)
+  | s :: rest =>
+    match appendToStream s i.prealloc with
+    | (s', none) => ({ i with streams := s' :: rest }, none)
+    | (s', some p) => ({ streams := s' :: rest, prealloc := INDEX_GROUP_SIZE }, some (b.szIndexGroup + p * b.szIndexRecord))
 
 def Idx.appendN (b : Build) : Nat → Idx → Idx × List Nat
   | 0, i => (i, [])
@@ -605,16 +607,12 @@ def Idx.appendN (b : Build) : Nat → Idx → Idx × List Nat
 /-- `lzma_index_cat(dest, src)`: the last group of `dest` is reallocated to its used size when it has spare Records
     (the size requested is returned), then the Streams of `src` are moved over and `src`'s base struct is freed. -/
 def Idx.cat (b : Build) (dest src : Idx) : Idx × Option Nat :=
-  match dest.streams.getLast? with
-  | none => (dest, none)
-  | some s =>
-    match s.getLast? with
-    | some g =>
-      if g.used < g.allocated then
-        let g' : IdxGroup := { allocated := g.used, used := g.used }
-        ({ dest with streams := dest.streams.dropLast ++ [s.dropLast ++ [g']] ++ src.streams },
-         some (b.szIndexGroup + g.used * b.szIndexRecord))
-      else ({ dest with streams := dest.streams ++ src.streams }, none)
-    | none => ({ dest with streams := dest.streams ++ src.streams }, none)
+  match dest.streams with
+  | (g :: gs) :: rest =>
+    if g.used < g.allocated then
+      ({ dest with streams := src.streams ++ (({ allocated := g.used, used := g.used } :: gs) :: rest) },
+       some (b.szIndexGroup + g.used * b.szIndexRecord))
+    else ({ dest with streams := src.streams ++ dest.streams }, none)
+  | _ => ({ dest with streams := src.streams ++ dest.streams }, none)
 
 end XzVerif.Memusage
